@@ -4,6 +4,8 @@ From Coq Require Export List NArith ZArith Bool.
 From Coq Require Export Strings.Byte Strings.String.
 Export ListNotations.
 Open Scope N_scope.
+(* Strings.String exports its own length; everything here is about lists *)
+Notation length := List.length (only parsing).
 
 Definition bytes := list byte.
 
